@@ -5,7 +5,7 @@ import gens, floatcorr
 from check import run_model_driver, f2b, b2f
 
 GEN = ['numeric']
-LEAN_MODULES = ['XfabVerif.Proofs.C02']
+LEAN_MODULES = ['XfabVerif.Proofs.C02', 'XfabVerif.Proofs.C02Traced']
 # definitions the hand-written model mirrors (see harness/pins.py): a source change breaks the tie
 PINS = ['xfab/tools.py:ub_to_u_b', 'xfab/laue.py:ub_to_u_b', 'xfab/tools.py:ubi_to_u_b', 'xfab/laue.py:ubi_to_u_b']
 LEAN_DRIVER_MODULES = ['XfabVerif.Gen.FloatDispatch', 'XfabVerif.Model.QR']
@@ -57,7 +57,7 @@ def det_pos_matrix(rng):
     while True:
         if kind == 'ub-cell':
             U, _ = gens.rotation(rng)
-            c, _ = gens.cell(rng)
+            c, _ = gens.cell(rng, scaled=True)
             from xfab import tools, laue
             M = U @ rng.choice([tools, laue]).form_b_mat(c)
         elif kind == 'ub-upper':
@@ -164,6 +164,17 @@ def corr_qr(ctx, n):
     return cases, dis, stats
 
 
+def _no_check(f, *a):
+    """the traced twin models the value computation (guards off); the guard sites are C20's business"""
+    import xfab
+    was = xfab.CHECKS.activated
+    xfab.CHECKS.activated = False
+    try:
+        return f(*a)
+    finally:
+        xfab.CHECKS.activated = was
+
+
 def correspondence(ctx):
     cases = []
     n = ctx.n(40, 2000)
@@ -171,7 +182,7 @@ def correspondence(ctx):
     seen = set()
     for i in range(n):
         U, uk = gens.rotation(ctx.rng)
-        c, ck = gens.cell(ctx.rng)
+        c, ck = gens.cell(ctx.rng, scaled=True)
         if uk != 'axis' and ck != 'ortho':
             seen.add(tuple(np.round(U.ravel(), 9)) + tuple(np.round(c, 9)))
         for mn, m, k in _mods():
@@ -189,6 +200,26 @@ def correspondence(ctx):
                 r = m.u_to_rod(U)
                 cases.append({'fn': '%s.ubi_to_rod' % mn, 'args': list(ubi.ravel()), 'py': (lambda m=m, ubi=ubi: m.ubi_to_rod(ubi)),
                               'rtol': 1e-8, 'atol': 1e-9, 'scale': float(1 + np.abs(r).max())})
+            # ub_to_u_b: the generated model takes numpy's own (Q, R) as parameters (numpy.linalg.qr is an external call), so
+            # everything the function does after the factorisation is compared bit for bit
+            if i % 2 == 0:
+                kindm = ctx.rng.choice(['UB', 'UB', 'axis', 'triangular', 'random'])
+                if kindm == 'UB':
+                    M = U @ m.form_b_mat(c)
+                elif kindm == 'axis':
+                    M = gens.rotation(ctx.rng, 'axis')[0] @ m.form_b_mat(c)
+                elif kindm == 'triangular':
+                    M = np.triu(np.array([[ctx.rng.uniform(-2, 2) for _ in range(3)] for _ in range(3)]))
+                    if np.linalg.det(M) < 0:
+                        M[0] = -M[0]
+                else:
+                    M = np.array([[ctx.rng.uniform(-2, 2) for _ in range(3)] for _ in range(3)])
+                    if np.linalg.det(M) < 0:
+                        M[[0, 1]] = M[[1, 0]]
+                if abs(np.linalg.det(M)) > 1e-6:
+                    Q, R = np.linalg.qr(np.asarray(M, float))
+                    cases.append({'fn': '%s.ub_to_u_b' % mn, 'args': list(M.ravel()) + list(Q.ravel()) + list(R.ravel()),
+                                  'py': (lambda m=m, M=M: _no_check(m.ub_to_u_b, M.copy())), 'rtol': 0.0, 'atol': 0.0})
         sample = sample or {'fn': 'Tools.u_to_ubi', 'args': list(U.ravel()) + list(c)}
     ncase, dis, stats = floatcorr.compare(cases)
     nq, disq, statq = corr_qr(ctx, ctx.n(60, 3000))
@@ -290,7 +321,7 @@ def oracle(ctx, hints=()):
     try:
         for i in range(n):
             U, uk = gens.rotation(ctx.rng)
-            c, ck = gens.cell(ctx.rng)
+            c, ck = gens.cell(ctx.rng, scaled=True)
             hs = [gens.hkl(ctx.rng) for _ in range(2)]
             kinds[uk + '/' + ck] = kinds.get(uk + '/' + ck, 0) + 1
             if ck != 'ortho' and not np.allclose(U, np.eye(3)):
